@@ -573,30 +573,38 @@ pub fn builder_cases(m: &Model) -> Vec<Option<BuilderCase>> {
         cases.push(damage_placement(m, kind).map(|d| BuilderCase { name, state: BState::of(&d), expect: Some("InvalidBoard") }));
     }
     cases.push(damage_castling(m, true).map(|d| BuilderCase { name: "B.unsupported-right", state: BState::of(&d), expect: Some("InvalidCastlingRights") }));
-    // a right on the wrong side of the king: no record can express it
+    // a right on the wrong side of the king: no record can express it. Three slots: any file, and up to
+    // two files that hold an own rook (the subtle case: everything about the right is fine but its wing)
     {
-        let mut found = None;
-        'outer: for c in 0..2u8 {
+        let mut plain: Option<Model> = None;
+        let mut with_rook: Vec<Model> = vec![];
+        for c in 0..2u8 {
             let Some(k) = m.king_sq(c) else { continue };
             let back = if c == WHITE { 0 } else { 7 };
             for w in 0..2usize {
-                // files holding an own rook first (the subtle case), then any file
-                let mut files: Vec<u8> = (0..8u8).filter(|&f| m.sq[mk(f as i8, back).unwrap() as usize] == Some((ROOK, c))).collect();
-                files.extend(0..8u8);
-                for f in files {
+                for f in 0..8u8 {
                     let wrong = if w == 0 { (f as i8) <= file_of(k) } else { (f as i8) >= file_of(k) };
-                    if wrong && m.rights[c as usize][w] != Some(f) {
-                        let mut d = m.clone();
-                        d.rights[c as usize][w] = Some(f);
-                        if all_in(&d.defects(), Aspect::Castling) {
-                            found = Some(d);
-                            break 'outer;
-                        }
+                    if !wrong || m.rights[c as usize][w] == Some(f) || m.rights[c as usize][w ^ 1] == Some(f) {
+                        continue;
+                    }
+                    let mut d = m.clone();
+                    d.rights[c as usize][w] = Some(f);
+                    if !all_in(&d.defects(), Aspect::Castling) {
+                        continue;
+                    }
+                    let own_rook = rank_of(k) == back && m.sq[mk(f as i8, back).unwrap() as usize] == Some((ROOK, c));
+                    if own_rook && with_rook.len() < 2 {
+                        with_rook.push(d);
+                    } else if !own_rook && plain.is_none() {
+                        plain = Some(d);
                     }
                 }
             }
         }
-        cases.push(found.map(|d| BuilderCase { name: "B.right-wrong-side", state: BState::of(&d), expect: Some("InvalidCastlingRights") }));
+        let mut it = with_rook.into_iter();
+        cases.push(plain.map(|d| BuilderCase { name: "B.right-wrong-side", state: BState::of(&d), expect: Some("InvalidCastlingRights") }));
+        cases.push(it.next().map(|d| BuilderCase { name: "B.right-wrong-side-own-rook-1", state: BState::of(&d), expect: Some("InvalidCastlingRights") }));
+        cases.push(it.next().map(|d| BuilderCase { name: "B.right-wrong-side-own-rook-2", state: BState::of(&d), expect: Some("InvalidCastlingRights") }));
     }
     cases.push(damage_castling_enemy_rook(m, true).map(|d| BuilderCase { name: "B.right-on-enemy-rook", state: BState::of(&d), expect: Some("InvalidCastlingRights") }));
     // EP aspect
